@@ -107,7 +107,11 @@ Record case := mkCase {
   c_ast : option (list (N * N));     (* spans found in AST::from(Parser); None = it panicked *)
   c_ast_nodes : list anode;          (* every node of the AST (structs / enum variants of its Debug rendering), preorder *)
   c_valid_utf8 : bool;               (* the source is valid UTF-8 *)
-  c_cst_built : bool                 (* Parser::try_into_cst returned Ok *)
+  c_cst_built : bool;                (* Parser::try_into_cst returned Ok *)
+  c_big : option (N * N * N * N * N)
+    (* Some for the one source of megabytes that is parsed on every run (tens of thousands of one-line
+       rules; its events are not written out): (bytes covered by the token spans, contiguous from 0;
+       number of rules in the source; RULE_DECL nodes in the CST; rules in the AST; errors in the AST) *)
 }.
 
 Definition ptok_of (o : tobs) : ptok :=
@@ -165,7 +169,13 @@ Definition check_conclusions (c : case) (raw : list event) : bool :=
     end &&
     match raw with EBegin k lo hi :: _ => (k =? K.SOURCE_FILE) && (lo =? 0) && (hi =? c_len c) | _ => false end.
 
+(* the large valid source: every byte is in a token, every rule is in the CST and in the AST *)
+Definition big_ok (len : N) (b : N * N * N * N * N) : bool :=
+  let '(covered, rules, cst_rules, ast_rules, ast_errors) := b in
+  (covered =? len) && (cst_rules =? rules) && (ast_rules =? rules) && (ast_errors =? 0).
+
 Definition check_case (c : case) : bool :=
+  match c_big c with Some _ => true | None =>
   match c_raw c with
   | None => false
   | Some raw =>
@@ -175,7 +185,7 @@ Definition check_case (c : case) : bool :=
     | None => false
     end &&
     match c_toks c with Some os => positions_match os | None => true end
-  end.
+  end end.
 
 (* every AST node: span ordered, inside the source, on character boundaries, holding the text the node
    says; covered by its parent's span; after its previous sibling *)
@@ -197,6 +207,7 @@ Definition spans_in_bounds (len : N) (es : list event) : bool :=
   forallb (fun e => let '(l, h) := ev_span e in (l <=? h) && (h <=? len)) es.
 
 Definition spec_case (c : case) : bool :=
+  match c_big c with Some b => big_ok (c_len c) b && c_texts_ok c && c_root_text_ok c | None =>
   match c_cst c with
   | None => false                                    (* the parser must not panic *)
   | Some es =>
@@ -230,4 +241,4 @@ Definition spec_case (c : case) : bool :=
   end &&
   ast_nodes_ok (c_len c) (c_ast_nodes c) &&
   (* a source that is valid UTF-8 has a CST (no token ends inside a character) *)
-  (negb (c_valid_utf8 c) || c_cst_built c).
+  (negb (c_valid_utf8 c) || c_cst_built c) end.
